@@ -107,6 +107,18 @@ def flap_scenario(name, ivl, mx, mode):
                                            {"op": "getopt", "sock": "tx", "id": S.SNDHWM}]}]}
 
 
+def flapgone_scenario(name, ivl, mx, nflap=6):
+    """the peer drops the connection a few times, then its port goes dead: the connecter that is respawned
+    inherits the attempt count and must still respect RECONNECT_IVL_MAX"""
+    return {"name": name, "deadline_ms": 40000, "meta": {"kind": "flapgone", "ivl": ivl, "max": mx, "conns": [["c", "tx", True]], "socks": ["tx"]},
+            "sockets": [{"name": "tx", "type": "PUSH", "opts": [S.i32(S.RECONNECT_IVL, ivl), S.i32(S.RECONNECT_IVL_MAX, mx)]}],
+            "tasks": [{"name": "l", "ops": [{"op": "raw_listen", "raw": "L", "save": "lep"}, {"op": "barrier", "name": "go", "parties": 2},
+                                           {"op": "raw_accept_loop", "listener": "L", "n": nflap, "mode": "close", "timeout_ms": 4000},
+                                           {"op": "raw_drop_listener", "listener": "L"}, {"op": "mark", "name": "port_dead"}, {"op": "sleep", "ms": 2500}]},
+                      {"name": "m", "ops": [{"op": "barrier", "name": "go", "parties": 2}, {"op": "monitor", "sock": "tx"}, {"op": "connect", "sock": "tx", "ep": "$lep"},
+                                           {"op": "drain_events", "sock": "tx", "timeout_ms": 3000, "max_events": 60}, {"op": "getopt", "sock": "tx", "id": S.SNDHWM}]}]}
+
+
 def dead_scenario(name, ivl, mx, churn=False):
     tasks = [{"name": "m", "ops": [{"op": "monitor", "sock": "tx"}, {"op": "connect", "sock": "tx", "ep": "tcp://127.0.0.1:9"},
                                   {"op": "drain_events", "sock": "tx", "timeout_ms": 1500, "max_events": 14}, {"op": "getopt", "sock": "tx", "id": S.SNDHWM}]}]
@@ -192,6 +204,9 @@ def build(thorough):
         for mode in (["close", "rst"] if thorough else ["close"]):
             scs.append(flap_scenario("flap-%s-%d-%d" % (mode, ivl, mx), ivl, mx, mode))
         scs.append(dead_scenario("dead-%d-%d" % (ivl, mx), ivl, mx))
+    scs.append(flapgone_scenario("flapgone-50-200", 50, 200))
+    if thorough:
+        scs.append(flapgone_scenario("flapgone-100-150", 100, 150, nflap=3))
     scs.append(dead_scenario("deadchurn-300-0", 300, 0, churn=True))
     scs.append(dead_scenario("deadchurn-100-400", 100, 400, churn=True))
     for (tr, ivl, mx, down) in ([("tcp", 50, 200, 700), ("tcp", 100, 0, 400), ("ipc", 50, 200, 700)] if thorough else [("tcp", 50, 200, 700)]):
@@ -261,6 +276,9 @@ def to_events(sc, meta, r):
             prev_attempt = t
         elif e == "event" and x.get("event") == "ConnectRetried" and kind == "dead":
             retried.append(x)
+        elif e == "event" and x.get("event") == "ConnectRetried" and kind == "flapgone":
+            # the interval a (respawned) connecter announces is the delay it is about to sleep
+            ev.append({"e": "attempt", "conn": "c", "gap": x["interval_ms"], "ivl": meta["ivl"], "max": meta["max"], "first": False, "k": len(ev), "nominal": True})
     if kind == "dead":
         for i, x in enumerate(retried[:12]):
             if meta.get("churn"):
